@@ -430,40 +430,57 @@ def check_fresh_name(idx, run):
         raise AnalysisError("next_available_name: expected one while loop")
     loop = whiles[0]
     test = loop.test
-    good_test = isinstance(test, ast.Compare) and \
-        isinstance(test.ops[0], ast.In) and \
-        is_normalised(test.left, func)
+    # the loop test is one membership test or a disjunction of them
+    members = []
+    shape_ok = True
+    for part in (test.values if isinstance(test, ast.BoolOp) and
+                 isinstance(test.op, ast.Or) else [test]):
+        if isinstance(part, ast.Compare) and len(part.ops) == 1 and \
+                isinstance(part.ops[0], ast.In):
+            members.append(part)
+        else:
+            shape_ok = False
+    if not members or not shape_ok:
+        raise AnalysisError("next_available_name: the search loop test is "
+                            "not a (disjunction of) membership test(s)")
+    good_test = all(is_normalised(m.left, func) for m in members)
     run.check("C16.R4", good_test, "SymbolTable.next_available_name",
               "candidate tested normalised",
-              "the candidate name is compared without normalisation, so "
-              "a clash differing in case is missed", loc(mod, loop))
-    setname = ast.unparse(test.comparators[0]) if isinstance(
-        test, ast.Compare) else ""
-    # reaching definitions of the set: must include symbols.keys() and, under
-    # `if other_table`, other_table.symbols_dict / _symbols keys
-    defs = [s for s in ast.walk(func) if isinstance(s, ast.Assign) and
-            ast.unparse(s.targets[0]) == setname]
-    alltxt = " ".join(ast.unparse(d.value) for d in defs)
-    has_self = "symbols.keys()" in alltxt or "symbols)" in alltxt
-    other_ok = False
-    for stmt in ast.walk(func):
-        if isinstance(stmt, ast.If) and ast.unparse(stmt.test) == \
-                "other_table":
-            body = " ".join(ast.unparse(s) for s in stmt.body)
-            if ("other_table.symbols_dict" in body or
-                    "other_table._symbols" in body or
-                    "other_table.get_symbols" in body) and \
-                    setname + " =" in body and \
-                    ("union" in body or "|" in body or "update" in body):
-                other_ok = True
+              "the candidate name is compared with a set of (normalised) "
+              "names without being normalised itself, so a clash differing "
+              "in case is missed", loc(mod, loop))
+
+    # where do the tested collections come from? (transitive local defs)
+    def sources(expr, depth=0):
+        out = {ast.unparse(expr)}
+        if depth > 5:
+            return out
+        for name in {n.id for n in ast.walk(expr)
+                     if isinstance(n, ast.Name)}:
+            for stmt in ast.walk(func):
+                if isinstance(stmt, ast.Assign) and any(
+                        isinstance(t, ast.Name) and t.id == name
+                        for t in stmt.targets):
+                    out |= sources(stmt.value, depth + 1)
+        return out
+    src = set()
+    for mem in members:
+        src |= sources(mem.comparators[0])
+    alltxt = " ".join(sorted(src))
+    has_self = "self._symbols" in alltxt and "self.get_symbols()" in alltxt
+    other_ok = ("other_table.symbols_dict" in alltxt or
+                "other_table._symbols" in alltxt or
+                "other_table.get_symbols" in alltxt)
     run.check("C16.R4", has_self and other_ok,
               "SymbolTable.next_available_name", "other_table excluded",
-              "names of the supplied other_table are not united into the "
-              "set of names to avoid", loc(mod, func))
+              "the names tested by the search loop do not include this "
+              "table (with or without ancestors) and the supplied "
+              "other_table", loc(mod, func))
     # progress: candidate re-assigned from a counter incremented in the loop
     body_txt = [ast.unparse(s) for s in loop.body]
-    cand = ast.unparse(test.left.args[0]) if isinstance(
-        test.left, ast.Call) and test.left.args else "?"
+    first = members[0].left
+    cand = ast.unparse(first.args[0]) if isinstance(first, ast.Call) and \
+        first.args else ast.unparse(first)
     counter = None
     for stmt in loop.body:
         if isinstance(stmt, ast.AugAssign) and isinstance(stmt.op, ast.Add):
@@ -635,6 +652,58 @@ def check_atomic(idx, run, eff):
             run.ob("C16.R5", True, {"rule": "C16.R5", "method": meth,
                                     "state_changes": len(changers),
                                     "raise_after_change": 0})
+
+
+def check_dry_run(idx, run):
+    """R5b: check_for_clashes() (and through it merge()'s atomicity) relies
+    on rename_symbol(..., dry_run=True) raising exactly when the real
+    rename would: no refusal may be reachable after the dry-run exit."""
+    mod = idx.module(ST_MOD)
+    cls = idx.get_class(ST_CLS)
+    func = cls.methods.get("rename_symbol")
+    if func is None:
+        raise AnalysisError("rename_symbol not found")
+    cfg = CFG(func)
+    tests = [n for n in cfg.stmt_nodes() if n.kind == "test" and
+             isinstance(n.ast, ast.If) and
+             ast.unparse(n.ast.test) == "dry_run"]
+    if len(tests) != 1:
+        raise AnalysisError("rename_symbol: expected exactly one "
+                            "`if dry_run:` test")
+    tnode = tests[0]
+    returns = all(isinstance(s, ast.Return) for s in tnode.ast.body)
+    run.check("C16.R5", returns, "SymbolTable.rename_symbol",
+              "dry run changes nothing", "the dry-run branch does more than "
+              "return", loc(mod, tnode.ast))
+    after = set()
+    for nxt, lab in tnode.succ:
+        if lab == "false":
+            after |= cfg.reachable(start=nxt)
+    late = [cfg.nodes[i] for i in after
+            if isinstance(cfg.nodes[i].ast, ast.Raise) and
+            cfg.nodes[i].kind == "stmt"]
+    run.check(
+        "C16.R5", not late, "SymbolTable.rename_symbol",
+        "dry run sees every refusal",
+        f"'{norm(late[0].ast)[:80] if late else ''}' can refuse a real "
+        f"rename but is placed after the dry-run exit: "
+        f"check_for_clashes() would accept a merge that later fails "
+        f"half-way, leaving both tables modified",
+        loc(mod, late[0].ast) if late else loc(mod, func))
+    # check_for_clashes must use the dry run for both tables
+    cfunc = cls.methods.get("check_for_clashes")
+    dry = [c for c in ast.walk(cfunc) if isinstance(c, ast.Call) and
+           isinstance(c.func, ast.Attribute) and
+           c.func.attr == "rename_symbol"]
+    ok = len(dry) >= 2 and all(
+        any(k.arg == "dry_run" and isinstance(k.value, ast.Constant) and
+            k.value.value is True for k in c.keywords) for c in dry) and \
+        {ast.unparse(c.func.value) for c in dry} == {"self", "other_table"}
+    run.check("C16.R5", ok, "SymbolTable.check_for_clashes",
+              "renameability probed by dry run on both tables",
+              "check_for_clashes no longer probes rename_symbol(dry_run="
+              "True) on this table and on the other table",
+              loc(mod, cfunc))
 
 
 def guard_raises_before(func, cfg, before_node, cond_pred):
@@ -858,6 +927,7 @@ def check(idx, run):
     check_scoped_lookup(idx, run)
     check_fresh_name(idx, run)
     check_atomic(idx, run, eff)
+    check_dry_run(idx, run)
     check_merge_once(idx, run)
     run.assumptions = [
         "dict / OrderedDict semantics",
